@@ -174,13 +174,62 @@ def r28_3(ctx):
 r28_3.rule_id = "R28.3"
 
 
+def _bits_meaning(sv, tv, ev, db, depth=0):
+    """what a decision says about the hash bits left in the splitter: 'remain' (at least one more index can be cut), 'exhausted', or None"""
+    callmap = {e.val: e for e in ev if e.kind == "call"}
+    if isinstance(sv, tuple) and sv[:1] == ("call",):
+        e = callmap.get(sv)
+        q = str(sv[1])
+        if q.endswith("::eos"):
+            return "exhausted" if tv else "remain"
+        if q.endswith("::rest_count"):
+            return "remain" if tv else "exhausted"       # used as a truth value: != 0
+        # a helper of the library: its return expression decides
+        if e is not None and e.node is not None and depth < 2:
+            G = db.get(e.node.get("m"))
+            if G is not None:
+                res = set()
+                for gp in PathSim(G, bound=256).run():
+                    if gp.outcome != "return":
+                        continue
+                    from sa.pathsim import norm_cond
+                    atom, pol = norm_cond(gp.ret)
+                    res.add(_bits_meaning(atom, tv == pol, gp.events, db, depth + 1))
+                if len(res) == 1:
+                    return res.pop()
+        return None
+    if isinstance(sv, tuple) and sv[:1] == ("op",) and len(sv) == 4 and sv[1] in ("==", "!=", ">", "<", ">=", "<="):
+        a, b = sv[2], sv[3]
+        ra = isinstance(a, tuple) and a[:1] == ("call",) and str(a[1]).endswith("::rest_count")
+        rb = isinstance(b, tuple) and b[:1] == ("call",) and str(b[1]).endswith("::rest_count")
+        if ra and b == C(0):
+            if sv[1] in ("!=", ">"):
+                return "remain" if tv else "exhausted"
+            if sv[1] in ("==", "<="):
+                return "exhausted" if tv else "remain"
+        if rb and a == C(0):
+            if sv[1] in ("!=", "<"):
+                return "remain" if tv else "exhausted"
+            if sv[1] in ("==", ">="):
+                return "exhausted" if tv else "remain"
+        if ra or rb:
+            # compared with something else (e.g. 'rest_count() > array_bits'): true proves bits remain, false proves nothing
+            k = b if ra else a
+            gt = (sv[1] in (">", ">=")) if ra else (sv[1] in ("<", "<="))
+            if gt and tv:
+                return "remain"
+            return None
+    return None
+
+
 def r28_4(ctx):
-    """insert paths: 'false because hash bits are exhausted' only under eos()"""
+    """HP/DHP insert paths: a colliding slot is expanded only while hash bits remain, and the operation gives up ('exhausted') only when the path
+    proved that no bits remain (eos(), rest_count() == 0, or a helper whose return expression means exactly that)"""
     n = 0
     for F in ctx.db.funcs.values():
         if not re.match(r"cds::intrusive::FeldmanHashSet::(insert|do_update)$", F.q):
             continue
-        if not Q.calls_in(F, r"::expand_slot$") or not Q.calls_in(F, r"::eos$"):
+        if not Q.calls_in(F, r"::expand_slot$") or F.gc_kind() not in ("HP", "DHP"):
             # (the RCU specialisation never consults eos(): it relies on distinct hashes diverging before the bits run out,
             #  which is what the property itself states - nothing to check there)
             continue
@@ -189,23 +238,50 @@ def r28_4(ctx):
         for p in ps:
             ev = p.events
             ex = [e for e in ev if e.kind == "call" and e.q and e.q.endswith("::expand_slot")]
-            eos = [e for e in ev if e.kind == "call" and e.q and e.q.endswith("::eos")]
-            eosv = None
+            callmap = {e.val: e for e in ev if e.kind == "call"}
+
+            def about_splitter(atom):
+                """the decision consults the hash splitter: eos() / rest_count() directly, or a library helper whose body does"""
+                found = []
+
+                def walk(x, d=0):
+                    if isinstance(x, tuple) and d < 8:
+                        if x[:1] == ("call",) and x in callmap:
+                            e = callmap[x]
+                            q = e.q or ""
+                            if re.search(r"::(eos|rest_count)$", q):
+                                found.append(x)
+                            elif e.node is not None and e.node.get("m"):
+                                G = ctx.db.get(e.node.get("m"))
+                                if G is not None and Q.calls_in(G, r"::(eos|rest_count)$"):
+                                    found.append(x)
+                        for y in x:
+                            if isinstance(y, tuple):
+                                walk(y, d + 1)
+                walk(atom)
+                return bool(found)
+            meaning = None
+            guard_node = None
             for atom, tv, bev in cond_atoms(p):
-                for e in eos:
-                    if atom == e.val:
-                        eosv = tv
+                if about_splitter(atom):
+                    meaning = _bits_meaning(atom, tv, ev, ctx.db)
+                    guard_node = bev.node
+                    guarded = True
+            has_guard = guard_node is not None
             for e in ex:
                 n += 1
-                ctx.check(eosv is False, "R28.4", F, "where the implementation guards against exhausted hash bits, a slot is expanded only while bits remain",
-                          e.node, detail=R, sig="expand-not-eos")
-            if eosv is True and p.outcome == "return":
-                n += 1
+                ctx.check(meaning == "remain", "R28.4", F, "a colliding slot is expanded only on a path that established that hash bits remain", e.node,
+                          detail="the guarding decision means %r. %s" % (meaning, R), sig="expand-not-eos")
+            if has_guard and not ex and p.outcome == "return" and meaning != "remain":
                 r = p.ret
-                okr = r == C(0) or (isinstance(r, tuple) and r[0] == "pair" and r[1] == C(0) and r[2] == C(0))
-                ctx.check(okr and not ex, "R28.4", F, "with the hash bits exhausted the operation fails without touching the slot", None, sig="eos-fails")
+                fail = r == C(0) or (isinstance(r, tuple) and r[0] == "pair" and r[1] == C(0) and r[2] == C(0))
+                if fail:
+                    n += 1
+                    ctx.check(meaning == "exhausted", "R28.4", F, "the operation gives up on a colliding slot only when the path proved that no hash bits remain", guard_node,
+                              detail="the guarding decision does not prove exhaustion (it means %r): two hashes that differ only in the bits still left would be treated "
+                              "as equal - the second one is refused although absent. %s" % (meaning, R), sig="fail-only-exhausted")
     if n < 4:
-        ctx.broken("FeldmanHashSet insert/do_update with expand_slot and eos() not found (%d sites)" % n)
+        ctx.broken("FeldmanHashSet insert/do_update expand/give-up decisions not found (%d sites)" % n)
 r28_4.rule_id = "R28.4"
 
 
